@@ -954,16 +954,32 @@ func (cm *circuitMap) OpenCircuits(keystones ...Keystone) error {
 	// circuits.
 	cm.mtx.RLock()
 	openedCircuits := make([]*PaymentCircuit, 0, len(keystones))
+	batchOutKeys := make(map[CircuitKey]struct{}, len(keystones))
 	for _, ks := range keystones {
 		if _, ok := cm.opened[ks.OutKey]; ok {
 			cm.mtx.RUnlock()
 			return ErrDuplicateKeystone
 		}
 
+		// The same outgoing key must not be used twice within this
+		// batch either.
+		if _, ok := batchOutKeys[ks.OutKey]; ok {
+			cm.mtx.RUnlock()
+			return ErrDuplicateKeystone
+		}
+		batchOutKeys[ks.OutKey] = struct{}{}
+
 		circuit, ok := cm.pending[ks.InKey]
 		if !ok {
 			cm.mtx.RUnlock()
 			return ErrUnknownCircuit
+		}
+
+		// A circuit that already has a keystone was forwarded before,
+		// it can't be opened under a second outgoing key.
+		if circuit.HasKeystone() && circuit.OutKey() != ks.OutKey {
+			cm.mtx.RUnlock()
+			return ErrDuplicateKeystone
 		}
 
 		openedCircuits = append(openedCircuits, circuit)
